@@ -29,6 +29,14 @@ pub struct TCfg {
     pub snap_interval: usize,
     pub max_wal: u64,
     pub logger: bool,
+    #[serde(default)]
+    pub hot_timeout_ms: Option<u64>,
+    #[serde(default)]
+    pub cold_timeout_ms: Option<u64>,
+    #[serde(default)]
+    pub max_conc: Option<usize>,
+    #[serde(default)]
+    pub ef_search: Option<usize>,
 }
 
 impl TCfg {
@@ -57,6 +65,10 @@ impl TCfg {
             snap_interval: *rng.pick(&[0usize, 2, 5, 1000]),
             max_wal: *rng.pick(&[1u64, 300, 100 << 20]),
             logger: rng.chance(1, 2),
+            hot_timeout_ms: None,
+            cold_timeout_ms: None,
+            max_conc: None,
+            ef_search: None,
         }
     }
 }
@@ -96,6 +108,10 @@ fn engine_config(c: &TCfg, dir: Option<&str>) -> TieredEngineConfig {
         fsync_policy: c.fsync.to_engine(),
         snapshot_interval: c.snap_interval,
         max_wal_size_bytes: c.max_wal,
+        hot_tier_timeout_ms: c.hot_timeout_ms.unwrap_or(50),
+        cold_tier_timeout_ms: c.cold_timeout_ms.unwrap_or(1000),
+        max_concurrent_queries: c.max_conc.unwrap_or(1000),
+        hnsw_ef_search: c.ef_search.unwrap_or(50),
         ..Default::default()
     }
 }
